@@ -511,6 +511,7 @@ class EQLTranslator:
         self._reject_inexpressible_comparison_of_two_variables(query)
 
         if self._is_attribute_equality_join(query):
+            self._reject_equality_join_below_a_disjunction(query)
             join_result = self._handle_attribute_equality_join(query)
             if join_result is not None:
                 return None
@@ -530,6 +531,27 @@ class EQLTranslator:
 
         mapper = OperatorMapper()
         return mapper.map_comparison_operator(operation, left, right)
+
+    def _reject_equality_join_below_a_disjunction(self, query: Comparator) -> None:
+        """
+        An equality between attributes of two variables is expressed as a JOIN, which constrains every row of the
+        statement. Below a disjunction it must only constrain the rows of its branch, this cannot be expressed.
+
+        :param query: The comparator that would be translated to a JOIN.
+        """
+        resolver = AttributeChainResolver()
+        if resolver.extract_leaf_variable(query.left) is resolver.extract_leaf_variable(
+            query.right
+        ):
+            return
+        parent = query._parent_
+        while parent is not None:
+            if isinstance(parent, OR):
+                raise UnsupportedQueryTypeError(
+                    f"Cannot express an equality between attributes of two variables below a disjunction: "
+                    f"{query.left} == {query.right}"
+                )
+            parent = parent._parent_
 
     def _reject_inexpressible_comparison_of_two_variables(
         self, query: Comparator
